@@ -402,6 +402,13 @@ func shiftRuns(w *bufio.Writer, seed int64, from, to int, stats map[string]int) 
 		exec := func(shift int64) []string {
 			var o []string
 			st := map[string]int{}
+			if run%25 == 24 {
+				// a fixed script instead of a random run: the node asks for view 1 on a timeout, then M peers ask for view 2 and it
+				// repeats its request with the reason "agreement" - the one payload whose timestamp is read in check.go
+				cvAgreementAt(sink, shift, &o)
+				runInc = 1000000
+				return o
+			}
 			genRunAt(sink, rand.New(rand.NewSource(runSeed(seed, run))), run, st, shift, &o)
 			runInc = int64(st["increment-of-this-run"])
 			return o
@@ -471,5 +478,19 @@ func shiftRuns(w *bufio.Writer, seed int64, from, to int, stats map[string]int) 
 			}
 		}
 		fmt.Fprintf(w, "ENDRUN\n")
+	}
+}
+
+func cvAgreementAt(w *bufio.Writer, shift int64, obs *[]string) {
+	n := mkScenNode(nil, 0, mkVals(4), -1, w, func(n *node) { n.epoch += shift; n.s14 = obs })
+	n.start(0)
+	for _, i := range []uint16{1, 2, 3} { // the peers have been heard of: a timeout asks for a view change, not for recovery
+		n.recv(&Payload{dbft.RecoveryRequestType, 1, 0, i, recReq{uint64(n.epoch) + 5}})
+	}
+	n.tm.armed = false
+	n.op("T 1 0", func() { n.d.OnTimeout(1, 0) })
+	n.tm.now = n.tm.now.Add(timeDur(1500000000))
+	for _, i := range []uint16{1, 2, 3} {
+		n.recv(&Payload{dbft.ChangeViewType, 1, 0, i, chView{2, 0, 0}})
 	}
 }
